@@ -278,6 +278,39 @@ pub mod proofs {
     }
     sanitize_instances!(c15_sanitize_0 = 0, c15_sanitize_1 = 1, c15_sanitize_2 = 2, c15_sanitize_3 = 3);
 
+    /// Sanitising over the alphabet of characters the rules mention (plus one letter): every string of N symbols.
+    pub const SPECIAL: [u8; 12] = [b'a', b'.', b'/', b'@', b'{', b'*', b':', b' ', b'~', b'\\', 0x7f, b'-'];
+    pub fn sanitize_special<const N: usize>() {
+        let mut x = [0u8; N];
+        let mut i = 0;
+        while i < N {
+            let k: u8 = kani::any();
+            kani::assume(k < 12);
+            x[i] = SPECIAL[k as usize];
+            i += 1;
+        }
+        let out: BString = gix_validate::reference::name_partial_or_sanitize(x[..].as_bstr());
+        let o: &[u8] = out.as_ref();
+        let lone_at = o.len() == 1 && o[0] == b'@';
+        let ok = match gix_validate::reference::name_partial(o.as_bstr()) {
+            Ok(_) => true,
+            Err(e) => {
+                std::mem::forget(e);
+                false
+            }
+        };
+        assert!(ok, "the sanitised name passes name_partial");
+        if !lone_at {
+            assert!(model_check_refname_onelevel(o), "the sanitised name is valid for git");
+        }
+        kani::cover!(o.len() < N, "something removed");
+        std::mem::forget(out);
+    }
+    #[kani::proof]
+    #[kani::unwind(9)]
+    pub fn c15_sanitize_special_3() {
+        sanitize_special::<3>()
+    }
     /// Sanitising around `.lock`: `<a> ".lock" <b>`.
     pub fn sanitize_lock<const A: usize, const B: usize, const T: usize>() {
         let a: [u8; A] = kani::any();
